@@ -25,6 +25,13 @@ def one(d):
         return d.name, "error " + (r.stdout + r.stderr)[-200:]
     meta = json.loads((d / "meta.json").read_text())
     ev = meta.setdefault("evaluation", {})
+    if res.get("apply_error"):
+        # the patch was made against an earlier HEAD and touches lines a later fix: commit changed: keep the
+        # evaluation recorded when it was kept
+        ev["applies_to_current_head"] = False
+        (d / "meta.json").write_text(json.dumps(meta, indent=1))
+        return d.name, "patch no longer applies to the current HEAD (earlier evaluation kept)"
+    ev["applies_to_current_head"] = True
     ev.update({"demo_unchanged_rc": res.get("demo_unchanged_rc"), "demo_changed_rc": res.get("demo_changed_rc"), "caught": res.get("caught"),
                "checks": {c: {"exit": v["rc"], "first_lines": v["violations"][:4]} for c, v in res.get("checks", {}).items()}})
     (d / "meta.json").write_text(json.dumps(meta, indent=1))
